@@ -1,7 +1,8 @@
 (* C14 - every view of a stored path tells the same story, safely.
    This file contains only the property theorems (closed by [exact] of a lemma
    proved in Proofs/), their statement pins and Print Assumptions. *)
-From LV Require Import Base.Prelude Model.PathStore Model.PathSpec Proofs.C14_PathStore Model.Polygon Proofs.C14_Polygon.
+From LV Require Import Base.Prelude Model.PathStore Model.PathSpec Proofs.C14_PathStore Model.Polygon Proofs.C14_Polygon
+                       Model.Commands Proofs.C14_Commands Model.PathBuffer Proofs.C14_PathBuffer.
 
 (* A path built by ANY well-nested builder program, with ANY attribute count,
    read back with attribute-carrying events, yields exactly the program's
@@ -89,6 +90,66 @@ Theorem C14_polygon_event_old_refuted :
   poly_event pts true 4 = EvEnd (0, 1)%Z (0, 0)%Z true.
 Proof. exact poly_event_old_refuted. Qed.
 
+(* ---------------------------------------------------------------- a command buffer with external storage
+   (Model/Commands.v: statement-level model of commands.rs; every raw read of the buffer or of the two stores is
+   explicit, an out-of-bounds read is the outcome RPanic).  For EVERY well-nested program of ids: *)
+
+(* iteration yields exactly the program's id events *)
+Theorem C14_commands_iter : forall p, cop_nested p = true ->
+  cmd_iter (cmd_build p) = ROk (cop_events p).
+Proof. exact cmd_iter_spec. Qed.
+
+(* random access: event(id) along next_event_id_in_path, starting at EventId(0), enumerates the events of iteration in
+   order, the ids visited are exactly the EventIds the builder returned, and no read leaves the buffer *)
+Theorem C14_commands_random_access : forall p, cop_nested p = true -> p <> [] ->
+  exists l, cmd_walk (length (cmd_build p)) (cmd_build p) 0 = ROk l /\
+            map snd l = cop_events p /\
+            map fst l = cmd_build_ids p /\
+            cmd_iter_idx (cmd_build p) = ROk l.
+Proof. exact cmd_event_spec. Qed.
+
+(* next_event_id_in_sub_path: the successor inside a sub-path; from an End it loops back to the sub-path's Begin *)
+Theorem C14_commands_sub_path : forall p l, cop_nested p = true ->
+  cmd_walk (length (cmd_build p)) (cmd_build p) 0 = ROk l ->
+  (forall l1 id e l2, l = l1 ++ (id, e) :: l2 -> is_end e = false ->
+     exists id' e' l3, l2 = (id', e') :: l3 /\
+       cmd_next_in_sub_path (cmd_build p) id = Some id' /\
+       cmd_next_in_path (cmd_build p) id = Some (Some id')) /\
+  (forall l1 b a mid id la fi cl l2,
+     l = l1 ++ (b, EvBegin a) :: mid ++ (id, EvEnd la fi cl) :: l2 ->
+     forallb (fun x => negb (is_begin (snd x))) mid = true ->
+     cmd_next_in_sub_path (cmd_build p) id = Some b).
+Proof. exact cmd_sub_path_spec. Qed.
+
+(* ---------------------------------------------------------------- an entry of a path buffer
+   (Model/PathBuffer.v: the builders swap the shared vectors into a path.rs builder, rebase the ids they return and
+   push a descriptor).  For EVERY list of (attribute count, program) - attribute counts may differ from path to
+   path: *)
+
+(* get(i) is, bit for bit, the path the stand-alone builder makes of the i-th program - so every theorem above about
+   the views of a path holds of an entry of a path buffer *)
+Theorem C14_path_buffer_entry : forall l i n prog,
+  Forall wf_item l -> nth_error l i = Some (n, prog) ->
+  pb_get (fst (pb_build_all (map item_ops l))) i = Some (build n (ops_of prog)).
+Proof. exact pbuf_get_is_path. Qed.
+
+(* the endpoint ids handed out while building through the buffer are those of the stand-alone builder *)
+Theorem C14_path_buffer_ids : forall l i n prog,
+  Forall wf_item l -> nth_error l i = Some (n, prog) ->
+  nth_error (snd (pb_build_all (map item_ops l))) i = Some (build_ids n (ops_of prog)).
+Proof. exact pbuf_ids. Qed.
+
+(* as many entries as programs, numbered in order; an index past the end is refused (None = the index panic) *)
+Theorem C14_path_buffer_len : forall l,
+  Forall wf_item l ->
+  length (pb_paths (fst (pb_build_all (map item_ops l)))) = length l /\
+  forall i, i < length l -> nth_error (pb_build_indices (map item_ops l)) i = Some i.
+Proof. exact pbuf_len. Qed.
+
+Theorem C14_path_buffer_out_of_range : forall l i,
+  length l <= i -> pb_get (fst (pb_build_all l)) i = None.
+Proof. exact pbuf_get_out_of_range. Qed.
+
 Print Assumptions C14_iter_attr_spec.
 Print Assumptions C14_iter_spec.
 Print Assumptions C14_id_iter_resolves.
@@ -101,3 +162,10 @@ Print Assumptions C14_concat_spec.
 Print Assumptions C14_polygon_event_is_nth.
 Print Assumptions C14_polygon_id_events.
 Print Assumptions C14_polygon_empty.
+Print Assumptions C14_commands_iter.
+Print Assumptions C14_commands_random_access.
+Print Assumptions C14_commands_sub_path.
+Print Assumptions C14_path_buffer_entry.
+Print Assumptions C14_path_buffer_ids.
+Print Assumptions C14_path_buffer_len.
+Print Assumptions C14_path_buffer_out_of_range.
